@@ -1,0 +1,92 @@
+//go:build verif
+
+// Contracts for package responseassembler (properties C19, C03, C24, C15). Comment-only: read by
+// /verif/bin/gsv, never compiled into the package.
+
+package responseassembler
+
+//@ -- the tracker (deduplication scope) a request records into
+//@ pred trk(prs *peerLinkTracker, r graphsync.RequestID) :=
+//@      ite(r in prs.dedupKeys, prs.altTrackers[prs.dedupKeys[r]], prs.linkTracker)
+//@ pred tracked(prs *peerLinkTracker, t *linktracker.LinkTracker) :=
+//@      t == prs.linkTracker || (exists k string :: k in prs.altTrackers && prs.altTrackers[k] == t)
+//@ pred ltOwned(t *linktracker.LinkTracker) := t != nil && isalloc(t) && invLT(t)
+//@      && isalloc(t.missingBlocks) && isalloc(t.linksWithBlocksTraversedByRequest) && isalloc(t.traversalsWithBlocksInProgress)
+//@ pred ltSep(t1 *linktracker.LinkTracker, t2 *linktracker.LinkTracker) := t1.missingBlocks != t2.missingBlocks
+//@      && t1.linksWithBlocksTraversedByRequest != t2.linksWithBlocksTraversedByRequest
+//@      && t1.traversalsWithBlocksInProgress != t2.traversalsWithBlocksInProgress
+
+//@ pred invPLT(prs *peerLinkTracker) := prs.altTrackers != nil && prs.dedupKeys != nil && prs.blockSentCount != nil && prs.skipFirstBlocks != nil && prs.blockSentCount != prs.skipFirstBlocks
+//@    && ltOwned(prs.linkTracker)
+//@    && (forall k string :: k in prs.altTrackers ==> ltOwned(prs.altTrackers[k]) && prs.altTrackers[k] != prs.linkTracker && ltSep(prs.altTrackers[k], prs.linkTracker))
+//@    && (forall k1 string, k2 string :: k1 in prs.altTrackers && k2 in prs.altTrackers && k1 != k2 ==>
+//@           prs.altTrackers[k1] != prs.altTrackers[k2] && ltSep(prs.altTrackers[k1], prs.altTrackers[k2]))
+//@    && (forall r graphsync.RequestID :: r in prs.dedupKeys ==> prs.dedupKeys[r] in prs.altTrackers)
+//@    && (forall k string :: k in prs.altTrackers ==> (exists r graphsync.RequestID :: r in prs.dedupKeys && prs.dedupKeys[r] == k))
+
+//@ func newTracker
+//@   modifies alloc, ltMissed
+//@   ensures result != nil && invPLT(result)
+//@   ensures forall r graphsync.RequestID :: !(r in result.dedupKeys) && !(r in result.blockSentCount) && !(r in result.skipFirstBlocks)
+
+//@ func peerLinkTracker.getLinkTracker
+//@   requires invPLT(prs)
+//@   modifies nothing
+//@   ensures result == trk(prs, requestID) && result != nil && tracked(prs, result)
+
+//@ func peerLinkTracker.SkipFirstBlocks
+//@   requires invPLT(prs)
+//@   modifies prs.skipFirstBlocks[*]
+//@   ensures invPLT(prs) && prs.skipFirstBlocks[requestID] == blocksToSkip && requestID in prs.skipFirstBlocks
+
+//@ -- C19 / C03 / C24: the send decision
+//@ func peerLinkTracker.RecordLinkTraversal
+//@   requires invPLT(prs)
+//@   modifies alloc, ltMissed, prs.blockSentCount[*],
+//@            trk(prs, requestID).missingBlocks[*], trk(prs, requestID).linksWithBlocksTraversedByRequest[*],
+//@            trk(prs, requestID).traversalsWithBlocksInProgress[*], allmaps(trk(prs, requestID).missingBlocks[requestID])
+//@   ensures invPLT(prs)
+//@   -- a block is sent iff it is present, not among the first blocks the requestor asked to skip, and no
+//@   -- request of the same scope that is still in progress has recorded the link with a block
+//@   ensures let n := old(ite(requestID in prs.blockSentCount, prs.blockSentCount[requestID], 0)) + 1 ::
+//@           let skip := old(ite(requestID in prs.skipFirstBlocks, prs.skipFirstBlocks[requestID], 0)) ::
+//@           result1 == n && result0 == (hasBlock && skip < n && old(rc(trk(prs, requestID), link)) == 0)
+//@   ensures result0 ==> (forall r graphsync.RequestID :: old(occ(trk(prs, requestID), r, link)) == 0)
+//@   -- and the traversal is recorded in that scope
+//@   ensures hasBlock ==> rc(trk(prs, requestID), link) == old(rc(trk(prs, requestID), link)) + 1
+//@   ensures !hasBlock ==> ltMissed[trk(prs, requestID)][requestID]
+//@   use tot_member(old(domain(trk(prs, requestID).linksWithBlocksTraversedByRequest)), old(values(trk(prs, requestID).linksWithBlocksTraversedByRequest)), link)
+
+//@ -- C19: finishing a request releases exactly what it recorded, in the scope it recorded into, and reports
+//@ -- complete-full exactly when it recorded no missing link; unused scopes are dropped
+//@ func peerLinkTracker.FinishTracking
+//@   requires invPLT(prs)
+//@   modifies ltMissed, prs.dedupKeys[*], prs.altTrackers[*], prs.blockSentCount[*], prs.skipFirstBlocks[*],
+//@            trk(prs, requestID).missingBlocks[*], trk(prs, requestID).linksWithBlocksTraversedByRequest[*],
+//@            trk(prs, requestID).traversalsWithBlocksInProgress[*]
+//@   ensures invPLT(prs)
+//@   ensures result == !old(ltMissed[trk(prs, requestID)][requestID])
+//@   ensures !(requestID in prs.dedupKeys) && !(requestID in prs.blockSentCount) && !(requestID in prs.skipFirstBlocks)
+//@   ensures let t := old(trk(prs, requestID)) ::
+//@           (forall l ipld.Link :: rc(t, l) == old(rc(trk(prs, requestID), l)) - old(occ(trk(prs, requestID), requestID, l)))
+//@           && !(requestID in t.linksWithBlocksTraversedByRequest) && !(requestID in t.missingBlocks)
+//@   loop 1 invariant otherRequestsFound ==> (exists r graphsync.RequestID :: r in prs.dedupKeys && prs.dedupKeys[r] == key)
+//@   loop 1 invariant !otherRequestsFound ==> (forall r graphsync.RequestID :: seen1[r] ==> prs.dedupKeys[r] != key)
+
+//@ -- a request is given its deduplication scope once, before it records anything
+//@ func peerLinkTracker.DedupKey
+//@   requires invPLT(prs) && !(requestID in prs.dedupKeys)
+//@   modifies alloc, ltMissed, prs.dedupKeys[*], prs.altTrackers[*]
+//@   ensures invPLT(prs) && requestID in prs.dedupKeys && prs.dedupKeys[requestID] == key
+//@   ensures !old(key in prs.altTrackers) ==> (forall l ipld.Link :: rc(trk(prs, requestID), l) == 0)
+
+//@ func peerLinkTracker.IgnoreBlocks
+//@   requires invPLT(prs)
+//@   modifies alloc, ltMissed,
+//@            trk(prs, requestID).missingBlocks[*], trk(prs, requestID).linksWithBlocksTraversedByRequest[*],
+//@            trk(prs, requestID).traversalsWithBlocksInProgress[*], allmaps(trk(prs, requestID).missingBlocks[requestID])
+//@   ensures invPLT(prs)
+//@   -- every ignored link ends up recorded, so it will not be sent in this scope while the request is in progress
+//@   ensures forall j int :: 0 <= j && j < len(links) ==> rc(trk(prs, requestID), links[j]) >= 1
+//@   loop 1 invariant invPLT(prs) && linkTracker == old(trk(prs, requestID)) && trk(prs, requestID) == old(trk(prs, requestID))
+//@   loop 1 invariant forall j int :: 0 <= j && j < idx1 ==> rc(linkTracker, links[j]) >= 1
